@@ -535,7 +535,7 @@ func (c *Coordinator) tryScaleDown(shards []*shardInfo) int32 {
 	// check for scale able shard
 	for ; i >= 0; i-- {
 		s := shards[i]
-		if s.changeAble && s.runtime.IdleStartAt != nil && time.Now().Sub(*s.runtime.IdleStartAt) > c.option.MaxIdleTime {
+		if s.changeAble && len(s.scraping) == 0 && s.runtime.IdleStartAt != nil && time.Now().Sub(*s.runtime.IdleStartAt) > c.option.MaxIdleTime {
 			c.log.Infof("%s is remove able", s.shard.ID)
 			scale--
 		} else {
